@@ -19,6 +19,8 @@ Every function below says how a Go call *ends*: with a value, with an error, wit
 * background goroutines and request goroutines: `deliver`, `run` (watcher / provider loops), `serve` (recovery
   middleware and interceptor).
 * `System`, `step`: the process as a whole under any sequence of file changes and requests.
+* redis cache credentials file: `loadCreds`, `reloadCreds`, `credsGet` (`redis.fileCredentials.load`, `OnChanged`,
+  `get`); a file is abstracted to what the YAML decoder finds in it (`CredDoc`).
 
 Core Lean only.
 -/
@@ -782,5 +784,125 @@ def step (g : Guards) (env : Env) (keyId : Consumer → String) (s : System) (e 
 
 def steps (g : Guards) (env : Env) (keyId : Consumer → String) (s : System) (es : List Event) : System :=
   es.foldl (step g env keyId) s
+
+/-! ## The credentials file of the redis cache
+
+`internal/cache/redis`: `fileCredentials` — `load` (called once by the configuration decode hook and then by
+`OnChanged` on the watcher goroutine whenever the file is written) and `get` (called by the redis client through
+`AuthCredentialsFn` whenever it connects or re-connects, on goroutines of its own where nothing recovers). -/
+
+/-- what the redis client is handed when it asks for credentials -/
+structure Creds where
+  user : String
+  pass : String
+  deriving DecidableEq, Repr, Inhabited
+
+/-- the value under a key of the credentials document, as far as decoding into a string field looks at it -/
+inductive CredVal
+  /-- `password:` / `password: ~`: the field keeps its zero value -/
+  | null
+  /-- any other scalar, numbers and booleans included: the field takes its text -/
+  | scalar (text : String)
+  /-- a sequence or a mapping: cannot become a string -/
+  | collection
+  deriving DecidableEq, Repr, Inhabited
+
+/-- what the YAML decoder finds in the file (the first document of it) -/
+inductive CredDoc
+  /-- no document: the file is empty or holds white space and comments only (`io.EOF`) -/
+  | none
+  /-- not YAML (a half-written quoted string, a key without its colon after another entry, …) -/
+  | malformed
+  /-- a document that is null: only `---` so far, `---` and comments, `null`, `~` -/
+  | null
+  /-- a scalar document (the first characters of the first key, before its colon is written) -/
+  | scalar
+  /-- a sequence (also: a single `-`) -/
+  | seq
+  /-- a mapping: keys in file order with their values -/
+  | map (fields : List (String × CredVal))
+  deriving DecidableEq, Repr, Inhabited
+
+/-- one entry of the mapping decoded into `staticCredentials{Username, Password}` -/
+def credField (c : Creds) (k : String) (v : CredVal) : Except Reason Creds :=
+  if k == "username" then
+    match v with
+    | .null => .ok c
+    | .scalar s => .ok { c with user := s }
+    | .collection => .error .decodeError
+  else if k == "password" then
+    match v with
+    | .null => .ok c
+    | .scalar s => .ok { c with pass := s }
+    | .collection => .error .decodeError
+  else .error .decodeError      -- `KnownFields(true)`: unknown field
+
+/-- the mapping decoded entry by entry; a key that occurs twice is an error ("mapping key already defined") -/
+def credFields : List (String × CredVal) → List String → Creds → Except Reason Creds
+  | [], _, c => .ok c
+  | (k, v) :: rest, seen, c =>
+    if seen.contains k then .error .decodeError
+    else
+      match credField c k v with
+      | .error r => .error r
+      | .ok c' => credFields rest (k :: seen) c'
+
+/-- `(*fileCredentials).load` up to the assignment: what `c.creds` is going to point to (`none` = a nil pointer).
+`byValue` says how the document is decoded: into a `staticCredentials` value whose address is stored afterwards (the
+code: a null document leaves the zero value) or into a `*staticCredentials` that the decoder has to allocate (which
+it does not do for a null document: the pointer stays nil and is stored as such). -/
+def loadCreds (byValue : Bool) : CredDoc → Out (Option Creds)
+  | .none => .err .decodeError
+  | .malformed => .err .unparsable
+  | .null => .ok (if byValue then some ⟨"", ""⟩ else none)
+  | .scalar => .err .decodeError
+  | .seq => .err .decodeError
+  | .map fs =>
+    match credFields fs [] ⟨"", ""⟩ with
+    | .ok c => .ok (some c)
+    | .error r => .err r
+
+/-- `OnChanged`: `c.creds` is assigned at the very end of a successful load only -/
+def reloadCreds (byValue : Bool) (st : Option Creds) (d : CredDoc) : Out Unit × Option Creds :=
+  match loadCreds byValue d with
+  | .ok s => (.ok (), s)
+  | .err r => (.err r, st)
+  | .panic => (.panic, st)
+  | .fatal => (.fatal, st)
+
+/-- `(*fileCredentials).get`: `c.creds.get()` dereferences the pointer -/
+def credsGet : Option Creds → Out Creds
+  | some c => .ok c
+  | none => .panic
+
+/-- what `c.creds` points to after a history of file contents, each of them reloaded -/
+def credsAfter (byValue : Bool) (st : Option Creds) (ds : List CredDoc) : Option Creds :=
+  ds.foldl (fun s d => (reloadCreds byValue s d).2) st
+
+/-- what happens to a running heimdall with a redis cache: the credentials file is written, the redis client
+(re-)connects -/
+inductive CredsEvent
+  | file (d : CredDoc)
+  | connect
+  deriving DecidableEq, Repr, Inhabited
+
+structure CredsProc where
+  alive : Bool
+  creds : Option Creds
+  deriving DecidableEq, Repr, Inhabited
+
+/-- one event: a reload runs on the watcher goroutine (`watcherRecovers`: below a `recover`), `get` runs on a
+goroutine of the redis client, where a panic ends the process -/
+def credsStep (byValue watcherRecovers : Bool) (p : CredsProc) (e : CredsEvent) : CredsProc :=
+  if !p.alive then p
+  else
+    match e with
+    | .file d =>
+      let (o, st) := reloadCreds byValue p.creds d
+      ⟨survives watcherRecovers o, st⟩
+    | .connect => ⟨(credsGet p.creds).returns, p.creds⟩
+
+def credsSteps (byValue watcherRecovers : Bool) (p : CredsProc) (es : List CredsEvent) : CredsProc :=
+  es.foldl (credsStep byValue watcherRecovers) p
 
 end Heimdall.Loaders
